@@ -73,8 +73,14 @@ impl Oracle for C16 {
                 }
                 if is_process {
                     // same wrapper id again: same stored welcome, nothing new
+                    // "again" = an earlier processing of it at this client was answered with the
+                    // stored welcome (a refusal that wrote nothing - the invitation's Nostr id
+                    // was taken at the time - stores nothing to return later)
                     let key = (node, pw.wrapper_id.to_hex());
-                    let again_same_wrapper = !self.processed_wrappers.insert(key);
+                    let again_same_wrapper = self.processed_wrappers.contains(&key);
+                    if rec.class == "ok" {
+                        self.processed_wrappers.insert(key);
+                    }
                     if again_same_wrapper {
                         w.probe("same_invitation_processed_again");
                         if w.views[node] != w.prev_view {
@@ -98,7 +104,10 @@ impl Oracle for C16 {
                     }
                     // the same invitation (same rumor) replayed under another wrapper id
                     if let Some(rid) = pw.rumor.id {
-                        let again_same_rumor = !self.processed_rumors.insert((node, rid.to_hex()));
+                        let again_same_rumor = self.processed_rumors.contains(&(node, rid.to_hex()));
+                        if rec.class == "ok" {
+                            self.processed_rumors.insert((node, rid.to_hex()));
+                        }
                         if again_same_rumor && !again_same_wrapper {
                             w.probe("same_invitation_under_new_wrapper_processed");
                             if w.views[node] != w.prev_view {
